@@ -272,6 +272,18 @@ func init() {
 		Variant{Name: "watermark replay without recover", Property: "C08", File: pst,
 			Old: "\t\t// The owner closes this channel before it is unregistered: guard the send with recover\n\t\tfunc() {\n\t\t\tdefer func() {\n\t\t\t\tif panicErr := recover(); panicErr != nil {\n\t\t\t\t\tr.logger.Warn(\"Failed to send pending watermark to local shard (channel closed)\",\n\t\t\t\t\t\ttag.NewStringTag(\"targetShard\", ClusterShardIDtoString(targetShardID)))\n\t\t\t\t}\n\t\t\t}()\n", New: "\t\tfunc() {\n", Expect: "O8.2"},
 	)
+	addVariants(
+		Variant{Name: "guarded hand-over returns its result instead of setting a captured flag", Property: "C02", File: shm, Benign: true,
+			Old: "\t\tdelivered := false\n\t\tfunc() {\n\t\t\tdefer func() {\n\t\t\t\tif panicErr := recover(); panicErr != nil {\n\t\t\t\t\tlogger.Warn(\"Failed to deliver messages to local shard owner (channel closed)\")\n\t\t\t\t}\n\t\t\t}()\n\t\t\tselect {\n\t\t\tcase ch <- *routedMsg:\n\t\t\t\tlogger.Debug(\"Delivered messages to local shard owner\")\n\t\t\t\tdelivered = true\n\t\t\tcase <-shutdownChan.Channel():\n\t\t\t\t// Shutdown signal received\n\t\t\t}\n\t\t}()\n", New: "\t\tdelivered := func() (sent bool) {\n\t\t\tdefer func() {\n\t\t\t\tif panicErr := recover(); panicErr != nil {\n\t\t\t\t\tlogger.Warn(\"Failed to deliver messages to local shard owner (channel closed)\")\n\t\t\t\t}\n\t\t\t}()\n\t\t\tselect {\n\t\t\tcase ch <- *routedMsg:\n\t\t\t\tlogger.Debug(\"Delivered messages to local shard owner\")\n\t\t\t\treturn true\n\t\t\tcase <-shutdownChan.Channel():\n\t\t\t\t// Shutdown signal received\n\t\t\t}\n\t\t\treturn false\n\t\t}()\n"},
+		Variant{Name: "guarded hand-over returns its result (seen from C09)", Property: "C09", File: shm, Benign: true,
+			Old: "\t\tdelivered := false\n\t\tfunc() {\n\t\t\tdefer func() {\n\t\t\t\tif panicErr := recover(); panicErr != nil {\n\t\t\t\t\tlogger.Warn(\"Failed to deliver messages to local shard owner (channel closed)\")\n\t\t\t\t}\n\t\t\t}()\n\t\t\tselect {\n\t\t\tcase ch <- *routedMsg:\n\t\t\t\tlogger.Debug(\"Delivered messages to local shard owner\")\n\t\t\t\tdelivered = true\n\t\t\tcase <-shutdownChan.Channel():\n\t\t\t\t// Shutdown signal received\n\t\t\t}\n\t\t}()\n", New: "\t\tdelivered := func() (sent bool) {\n\t\t\tdefer func() {\n\t\t\t\tif panicErr := recover(); panicErr != nil {\n\t\t\t\t\tlogger.Warn(\"Failed to deliver messages to local shard owner (channel closed)\")\n\t\t\t\t}\n\t\t\t}()\n\t\t\tselect {\n\t\t\tcase ch <- *routedMsg:\n\t\t\t\tlogger.Debug(\"Delivered messages to local shard owner\")\n\t\t\t\treturn true\n\t\t\tcase <-shutdownChan.Channel():\n\t\t\t\t// Shutdown signal received\n\t\t\t}\n\t\t\treturn false\n\t\t}()\n"},
+		Variant{Name: "result-form hand-over reports true from its shutdown arm", Property: "C02", File: shm,
+			Old: "\t\tdelivered := false\n\t\tfunc() {\n\t\t\tdefer func() {\n\t\t\t\tif panicErr := recover(); panicErr != nil {\n\t\t\t\t\tlogger.Warn(\"Failed to deliver messages to local shard owner (channel closed)\")\n\t\t\t\t}\n\t\t\t}()\n\t\t\tselect {\n\t\t\tcase ch <- *routedMsg:\n\t\t\t\tlogger.Debug(\"Delivered messages to local shard owner\")\n\t\t\t\tdelivered = true\n\t\t\tcase <-shutdownChan.Channel():\n\t\t\t\t// Shutdown signal received\n\t\t\t}\n\t\t}()\n", New: "\t\tdelivered := func() (sent bool) {\n\t\t\tdefer func() {\n\t\t\t\tif panicErr := recover(); panicErr != nil {\n\t\t\t\t\tlogger.Warn(\"Failed to deliver messages to local shard owner (channel closed)\")\n\t\t\t\t}\n\t\t\t}()\n\t\t\tselect {\n\t\t\tcase ch <- *routedMsg:\n\t\t\t\tlogger.Debug(\"Delivered messages to local shard owner\")\n\t\t\t\treturn true\n\t\t\tcase <-shutdownChan.Channel():\n\t\t\t\treturn true\n\t\t\t}\n\t\t\treturn false\n\t\t}()\n", Expect: "O2.13"},
+		Variant{Name: "result-form hand-over presets its named result, recovered panic reports true", Property: "C09", File: shm,
+			Old: "\t\tdelivered := false\n\t\tfunc() {\n\t\t\tdefer func() {\n\t\t\t\tif panicErr := recover(); panicErr != nil {\n\t\t\t\t\tlogger.Warn(\"Failed to deliver messages to local shard owner (channel closed)\")\n\t\t\t\t}\n\t\t\t}()\n\t\t\tselect {\n\t\t\tcase ch <- *routedMsg:\n\t\t\t\tlogger.Debug(\"Delivered messages to local shard owner\")\n\t\t\t\tdelivered = true\n\t\t\tcase <-shutdownChan.Channel():\n\t\t\t\t// Shutdown signal received\n\t\t\t}\n\t\t}()\n", New: "\t\tdelivered := func() (sent bool) {\n\t\t\tsent = true\n\t\t\tdefer func() {\n\t\t\t\tif panicErr := recover(); panicErr != nil {\n\t\t\t\t\tlogger.Warn(\"Failed to deliver messages to local shard owner (channel closed)\")\n\t\t\t\t}\n\t\t\t}()\n\t\t\tselect {\n\t\t\tcase ch <- *routedMsg:\n\t\t\t\tlogger.Debug(\"Delivered messages to local shard owner\")\n\t\t\t\treturn true\n\t\t\tcase <-shutdownChan.Channel():\n\t\t\t\t// Shutdown signal received\n\t\t\t}\n\t\t\treturn false\n\t\t}()\n", Expect: "O9.1"},
+		Variant{Name: "bounded wait: the hand-over select is left running in a goroutine", Property: "C02", File: shm,
+			Old: "\t\tdelivered := false\n\t\tfunc() {\n\t\t\tdefer func() {\n\t\t\t\tif panicErr := recover(); panicErr != nil {\n\t\t\t\t\tlogger.Warn(\"Failed to deliver messages to local shard owner (channel closed)\")\n\t\t\t\t}\n\t\t\t}()\n\t\t\tselect {\n\t\t\tcase ch <- *routedMsg:\n\t\t\t\tlogger.Debug(\"Delivered messages to local shard owner\")\n\t\t\t\tdelivered = true\n\t\t\tcase <-shutdownChan.Channel():\n\t\t\t\t// Shutdown signal received\n\t\t\t}\n\t\t}()\n", New: "\t\tdelivered := false\n\t\tdone := make(chan struct{})\n\t\tgo func() {\n\t\t\tdefer close(done)\n\t\t\tdefer func() {\n\t\t\t\tif panicErr := recover(); panicErr != nil {\n\t\t\t\t\tlogger.Warn(\"Failed to deliver messages to local shard owner (channel closed)\")\n\t\t\t\t}\n\t\t\t}()\n\t\t\tselect {\n\t\t\tcase ch <- *routedMsg:\n\t\t\t\tlogger.Debug(\"Delivered messages to local shard owner\")\n\t\t\t\tdelivered = true\n\t\t\tcase <-shutdownChan.Channel():\n\t\t\t\t// Shutdown signal received\n\t\t\t}\n\t\t}()\n\t\tselect {\n\t\tcase <-done:\n\t\tcase <-time.After(time.Second):\n\t\t\treturn false\n\t\t}\n", Expect: "O2.13", Contains: "hand-over select"},
+	)
 	// ---- C06
 	ast := "proxy/admin_stream_transfer.go"
 	addVariants(
